@@ -1091,5 +1091,9 @@ def _insert_expression(value: V, s_dict: SDict[K, V]) -> V:
 
 def _value_contains_circular_reference(key: TKey, value: TValue) -> bool:
     if isinstance(key, str) and isinstance(value, str):
-        return key in value
+        # the value refers to its own key:  $key  not followed by a further word character
+        if key and re.search(rf"\${re.escape(key)}(?!\w)", value):
+            return True
+        # placeholder entries (e.g. LINECOMMENT000012: LINECOMMENT000012) name themselves
+        return key == value and re.fullmatch(r"[A-Z]+\d{6}", key) is not None
     return False
